@@ -397,7 +397,7 @@ func ruleDivisorsAndIndices(w *World, r *RuleResult) {
 				switch {
 				case l.Root.Kind == RNil:
 					// nil-ness is C04.R2's business
-				case l.Root.Kind == RGlobal && l.Root.Name == "pow10LookupTable":
+				case (l.Root.Kind == RGlobal || l.Root.Kind == RGlobalObj) && l.Root.Name == "pow10LookupTable":
 					why = "power of ten from the table"
 				case l.Root.Kind == RGlobalObj && bigConsts[l.Root.Name] != 0:
 					why = fmt.Sprintf("package constant %s = %d", l.Root.Name, bigConsts[l.Root.Name])
